@@ -411,6 +411,19 @@ def check(ctx: Ctx) -> None:
                                   f"{d}.remove({k}) is not dominated by a membership test: ValueError without explanation is tolerated, but this one is an internal inconsistency")
     if n_imp < 4:
         raise AnalysisError(f"R4.4: only {n_imp} implicit-raiser sites found (floor 4)")
+    # R4.10: bounded-exhaustive interpretation of the parameter rule on malformed token tails
+    ctx.rule("R4.10", "Parser.param, interpreted (its AST) on every token sequence up to the bound over the token kinds that can follow `key = value`, returns or raises a parsing error / ValueError — never an IndexError, TypeError, KeyError or AttributeError")
+    try:
+        from ._parser_interp import run_param_malformed
+        badp, n_streams = run_param_malformed(ctx, model, 5 if ctx.tier == "thorough" else 4)
+        ctx.instance("R4.10", f"Parser.param on {n_streams} token tails (all sequences up to length {5 if ctx.tier == 'thorough' else 4} over 9 token kinds)")
+        if badp is None:
+            ctx.ok()
+        else:
+            ctx.violation("R4.10", f"Parser.param:escapes:{badp[1]}", f"{CIRC}.parser", model.fi(f"{CIRC}.parser", "Parser.param").node,
+                          f"on the token stream [{badp[0]}] Parser.param raises {badp[1]}, which is neither a parsing error nor ValueError: parse_cdc is not total on malformed parameter limits")
+    except AnalysisError as e:
+        ctx.note(f"Parser.param not interpretable ({e})")
     # R4.8: containers the parser consumes (remove/pop/clear) are built fresh in the same call
     n_fresh = 0
     from ..prov import assignments
